@@ -28,7 +28,7 @@ pub trait Fam: Sized + Send + Sync + 'static {
     const FAMILY: Family;
     const NAME: &'static str;
     type Packet: Clone + Debug + PartialEq + Send + Sync + 'static;
-    type Error: Clone + Debug + PartialEq + Send + Sync + 'static;
+    type Error: Clone + Debug + PartialEq + Send + Sync + 'static + From<io::Error> + From<mqtt_proto::Error>;
     type Header: PollHeader<Packet = Self::Packet, Error = Self::Error> + Copy + Unpin + Debug + PartialEq + Eq + Hash + Send + Sync + 'static;
 
     fn from_ast(a: &Ast) -> Option<Self::Packet>;
